@@ -141,6 +141,14 @@ class Analyzer:
         if fn.args.kwarg:
             params.append(fn.args.kwarg.arg)
         env = {p: {p: 0} for p in params}
+        # module-level mutable state (e.g. a cache dict) is caller-visible too: writes into it make results depend on call history
+        tree = self.index.modules.get(rel)
+        if tree is not None:
+            for n in tree.body:
+                tgts = n.targets if isinstance(n, ast.Assign) else ([n.target] if isinstance(n, ast.AnnAssign) else [])
+                for t in tgts:
+                    if isinstance(t, ast.Name) and t.id not in env:
+                        env[t.id] = {"<module global %s>" % t.id: 0}
         # a parameter annotated with an immutable scalar type cannot be written through: `n //= p` on an int rebinds a local
         for a in fn.args.args + fn.args.kwonlyargs:
             ann = a.annotation
@@ -504,6 +512,10 @@ def frame_obligations(index, rel, qualname, modifies=(), label=None, roots=None)
     S = an.summary(rel, node, cls)
     params = [a.arg for a in node.args.args]
     watch = set(roots) if roots is not None else set(params)
+    for lineno, desc, troots in S.sites:
+        for r in troots:
+            if r.startswith("<module global"):
+                watch.add(r)
     recs = []
     fn = qualname.split(".")[-1]
     for lineno, desc, troots in S.sites:
